@@ -5,6 +5,9 @@
  */
 #ifndef VERIF_HARNESS_COMMON_H
 #define VERIF_HARNESS_COMMON_H
+#ifdef VERIF_CBMC
+int verif_touch_flag;     /* nondeterministic (dfcc havocs statics); never assigned */
+#endif
 
 #ifdef VERIF_CBMC
 #  define NONDET(T, name) T name
@@ -13,7 +16,9 @@
 #  define CHECK(c, msg) __CPROVER_assert((c), msg)
 #  define NATIVE_ONLY(x)
 #  define CBMC_ONLY(x) x
-#  define CANARY() __CPROVER_assert(0, "canary")
+   /* the dead-end touch keeps dfcc's instrumentation of spec functions uniform (bin/vcheck write_spec_touch); it is reachability only */
+#  define CANARY() do { if (verif_touch_flag) { __CPROVER_assume(0); VERIF_TOUCH_CALL; } __CPROVER_assert(0, "canary"); } while (0)
+#  define VERIF_TOUCH_CALL verif_spec_touch()      /* defined by the generated spec_touch.h, which every harness includes after its spec headers */
 #  define HARNESS(name) void name(void)
 #  define OUT(x)
    /* known-findings split (DESIGN.md 2.5): the driver defines VERIF_REGION_EXPR from KNOWN_FINDINGS.txt */
